@@ -620,6 +620,15 @@ fn run_persist(seed: u64, bucket: usize, compress: i32, ops: &[TOp], rep: &mut R
                 }
                 let _ = b2.insert(9999, &v[1], 5);
                 block(b2.flush(6)).map_err(|e| violation!("c11.no-progress", "{ctx}: flush after recovery failed: {e:?}"))?;
+                // what the recovered index answers survives its own next flush and a clean reload
+                let want = wrapper_contents(&b2, &v);
+                let storage3 = storage_for(&st, bucket, compress).map_err(|e| violation!("c11.load-error", "{ctx}: storage connect failed: {e}"))?;
+                let b3 = block(BM25::bootstrap("body".to_string(), default_tokenizer(), storage3)).map_err(|e| violation!("c11.lost-after-recovery-flush", "{ctx}: after the recovered index flushed once more, loading it again failed: {e:?}"))?;
+                let back = wrapper_contents(&b3, &v);
+                if back != want {
+                    return Err(violation!("c11.lost-after-recovery-flush", "{ctx}: the recovered index answered {want:?} after its next flush, but a clean reload answers {back:?}"));
+                }
+                rep.probe("recovered_then_flushed_then_reloaded", 1);
             }
             Err(e) => {
                 if mk != 0 {
